@@ -64,6 +64,29 @@ def decodeVal : (τ : Ty) → SExp → Option (Val τ)
   | .choices r, e =>
     e.listOf? (SExp.listOf? (SExp.pairOf? SExp.nats? (SExp.listOf? (decodeVal r))))
 
+def natsStr (l : List Nat) : String := "(" ++ " ".intercalate (l.map toString) ++ ")"
+def listStr (l : List String) : String := "(" ++ " ".intercalate l ++ ")"
+
+/-- inverse of `decodeVal` (hash-table collections in the model's list order) -/
+def encodeVal : (τ : Ty) → Val τ → String
+  | .unit, _ => "u"
+  | .bool, b => cond b "t" "f"
+  | .u8, n | .u32, n | .u64, n | .usize, n | .id, n => Nat.repr n
+  | .str, s => natsStr s
+  | .vclock, c => natsStr c
+  | .arc t, x => encodeVal t x
+  | .tup a b, x => "(" ++ encodeVal a x.1 ++ " " ++ encodeVal b x.2 ++ ")"
+  | .enum2 a _, .inl x => "(0 " ++ encodeVal a x ++ ")"
+  | .enum2 _ b, .inr y => "(1 " ++ encodeVal b y ++ ")"
+  | .enum3 a _ _, .inl x => "(0 " ++ encodeVal a x ++ ")"
+  | .enum3 _ b _, .inr (.inl y) => "(1 " ++ encodeVal b y ++ ")"
+  | .enum3 _ _ c, .inr (.inr z) => "(2 " ++ encodeVal c z ++ ")"
+  | .vec t, l | .deque t, l | .bset t, l | .hset t, l => listStr (l.map (encodeVal t))
+  | .bmap k v, l | .hmap k v, l =>
+    listStr (l.map fun p => "(" ++ encodeVal k p.1 ++ " " ++ encodeVal v p.2 ++ ")")
+  | .choices r, l =>
+    listStr (l.map fun m => listStr (m.map fun p => "(" ++ natsStr p.1 ++ " " ++ listStr (p.2.map (encodeVal r)) ++ ")"))
+
 def decodeTok : SExp → Option Tok
   | .list [.atom "u8", n] => n.nat?.map .u8
   | .list [.atom "u32", n] => n.nat?.map .u32
